@@ -1760,6 +1760,8 @@ class SSHOpenSSHCertificate(SSHCertificate):
             elif critical:
                 raise KeyImportError('Unrecognized critical option: ' +
                                      name.decode('ascii', errors='replace'))
+            else:
+                _ = packet.get_string()         # skip unrecognized data
 
         return result
 
